@@ -128,6 +128,8 @@ def gen_cases(spec):
             out.append(({"main": 'include "a"\n' + p, "a": p}, "main"))
             out.append(({"__standards__": p}, "__standards__"))
             out.append(({"main": "x := y + 1", "__standards__": p}, "main"))
+            out.append(({"main": "// only a comment", "__standards__": p}, "main"))   # all program text comes from a user file of that name
+            out.append(({"main": "", "__standards__": p + " ;\nx := RUN nosuch WITH END"}, "main"))
     elif k == "noise":
         files, main = base_source(r, spec["chunk"])
         for _ in range(spec["n"]):
